@@ -8,6 +8,9 @@ CHECKS = {
          "Algebraic laws of HashableValue/OrderableValue are evaluated on every ordered pair (and all triples in thorough) of a curated pool of ~110 boundary values plus random values; every serialisation the engine applies (Value::serialize, spill, WAL via close/reopen, snapshot) is round-tripped bit-for-bit through the real code; DISTINCT/GROUP BY/ORDER BY and the hash/btree indexes are run over the pool and judged by laws. Held = no law broken on the pairs/triples enumerated.",
          "Finite pool + random sampling: values outside the pool's classes are only sampled. JSON for bindings is not covered by the quick command.", "DESIGN.md §4 C16"),
 }
+CHECKS["C15"] = ("exploration", "runtime round-trip / random-access / bytes round-trip monitors over a directed codec x input-class matrix and random sequences",
+  "Every codec (dictionary, delta signed/unsigned, bit-packing at every width 0..=64, delta+bit-packing, run-length signed/unsigned, bit vector algebra, codec selector, Elias-Fano, rank/select, wavelet tree, adjacency compaction/freeze, compressed property columns) is run on a directed matrix of input shapes x boundary lengths and on random sequences; the oracle is the input sequence itself (decode, get(i), iterator, from_bytes(to_bytes)). Held = every observed round trip was exact.",
+  "Inputs respect documented preconditions (sorted where required). Sequence lengths <= 1025 in the matrix; values and lengths beyond the classes are sampled only. One build profile per run (dev by default; VH_PROFILE=release for the other).", "DESIGN.md §4 C15")
 NOT_YET = {}
 
 def main():
